@@ -44,8 +44,12 @@ class EStrEmpty(str, Enum):
 class ESnake(Enum):
     RED_COLOR = 1
     BLUE = 2
+class ECross(str, Enum):        # mixed-in str enum whose VALUES are names of other members: a name key of `map` is equal to a member
+    A = "B"
+    B = "C"
+    C = "A"
 ENUMS = {"EPlain": EPlain, "EStr": EStr, "EInt": EInt, "EAlias": EAlias, "EUnhash": EUnhash, "EList": EList, "EMissing": EMissing, "ESnake": ESnake,
-         "EFalsy": EFalsy, "EStrEmpty": EStrEmpty}
+         "EFalsy": EFalsy, "EStrEmpty": EStrEmpty, "ECross": ECross}
 
 class F3(Flag):
     A = 1
@@ -104,12 +108,14 @@ ENUM_PROVIDERS = {
     "name": lambda E: [enum_by_name(E)],
     "name_camel": lambda E: [enum_by_name(E, name_style=NameStyle.CAMEL)],
     "name_map": lambda E: [enum_by_name(E, map={"A": "first", list(E)[-1]: "last"})],
+    "name_map_cross": lambda E: [enum_by_name(E, map={"B": "bee"})],          # renames member B only, although member A has the VALUE "B"
 }
 ELD, EDP, EERR = {}, {}, []
 for _en, _E in ENUMS.items():
     for _pn, _mk in ENUM_PROVIDERS.items():
         if _pn == "name_camel" and _en != "ESnake": continue
-        if _pn == "name_map" and _en in ("ESnake", "EFalsy", "EStrEmpty"): continue
+        if _pn == "name_map" and _en in ("ESnake", "EFalsy", "EStrEmpty", "ECross"): continue
+        if _pn == "name_map_cross" and _en != "ECross": continue
         for _s in (True, False):
             _r = Retort(recipe=_mk(_E), strict_coercion=_s)
             _c = creation(lambda: (_r.get_loader(_E), _r.get_dumper(_E)))
@@ -124,6 +130,7 @@ for _en, _tp in (("EInt", int), ("EStr", str), ("EAlias", int)):
 
 def expected_name(E, pn, m):
     if pn == "name_camel": return {"RED_COLOR": "redColor", "BLUE": "blue"}[m.name]
+    if pn == "name_map_cross": return "bee" if m.name == "B" else m.name
     if pn == "name_map":
         if m is list(E)[-1]: return "last"
         if m.name == "A": return "first"
@@ -414,8 +421,9 @@ def build(tier, seed):
     m = Module("c18_enum").pre(SETUP).pre(ENUM_PART)
     m.ob("enum_creation", "x: int", "return not EERR", timeout=30, family="enum providers: creation",
          bounds="8 enum classes x exact/default/by-name/name_style/map/by-value x strict/lax")
-    combos = [(en, pn) for en in ["EPlain", "EStr", "EInt", "EAlias", "EUnhash", "EList", "EMissing", "EFalsy", "EStrEmpty"] for pn in ("exact", "name", "name_map")
-              if not (pn == "name_map" and en in ("EFalsy", "EStrEmpty"))]
+    combos = [(en, pn) for en in ["EPlain", "EStr", "EInt", "EAlias", "EUnhash", "EList", "EMissing", "EFalsy", "EStrEmpty", "ECross"] for pn in ("exact", "name", "name_map")
+              if not (pn == "name_map" and en in ("EFalsy", "EStrEmpty", "ECross"))]
+    combos += [("ECross", "name_map_cross")]
     combos += [("ESnake", "name_camel"), ("ESnake", "exact"), ("EInt", "value"), ("EStr", "value"), ("EAlias", "value"), ("EPlain", "default")]
     for en, pn in combos:
         if (en, pn) == ("EUnhash", "exact"):
